@@ -607,7 +607,7 @@ def m_from(c, call, v):
             return s_
         if last_seg(ds) == 'Option':
             return Some(v0)
-        if strip_angle(d) == strip_angle(s):
+        if strip_angle(d) == strip_angle(s) or getattr(v0, 'ty', None) == last_seg(ds):
             return v0
         tgt = last_seg(ds); tyname = getattr(v0, 'ty', None) or last_seg(strip_angle(s))
         hit = c.find_from_impl(tgt, tyname)
@@ -617,7 +617,30 @@ def m_from(c, call, v):
 
 
 @reg('Clone::clone', 'Option::clone', 'Vec::clone')
-def m_clone(c, call, v): return clone_val(v)
+def m_clone(c, call, v):
+    st = (call.self_ty or '').strip()
+    if st.startswith(('Arc<', 'Rc<', 'std::sync::Arc<', 'UnboundedSender<', 'tokio::sync::mpsc::UnboundedSender<')):
+        return deref(v)            # shared ownership: the clone aliases the same object
+    return clone_val(v)
+
+
+@regp(r'^(u8|u16|u32|u64|usize|i32|i64)::(leading_zeros|trailing_zeros|count_ones)$')
+def m_bitcount(c, call, v):
+    n = v.size(); k = conc(v) if is_conc(v) else None
+    which = call.key.split('::')[1]
+    if k is not None:
+        if which == 'leading_zeros': r = n - k.bit_length()
+        elif which == 'trailing_zeros': r = n if k == 0 else (k & -k).bit_length() - 1
+        else: r = bin(k).count('1')
+        return z3.BitVecVal(r, 32)
+    if which == 'count_ones':
+        return z3.simplify(sum([z3.ZeroExt(31, z3.Extract(i, i, v)) for i in range(n)], z3.BitVecVal(0, 32)))
+    out = z3.BitVecVal(n, 32)
+    rng_ = range(n) if which == 'leading_zeros' else range(n - 1, -1, -1)
+    for i in rng_:
+        # the highest (lowest) set bit decides
+        out = z3.If(z3.Extract(i, i, v) == 1, z3.BitVecVal(n - 1 - i if which == 'leading_zeros' else i, 32), out)
+    return out
 
 
 @reg('PartialEq::eq')
